@@ -43,6 +43,7 @@ type gen struct {
 	metaCode, seedClearCode, removeCode, unionCode string
 	unionInPlace                                   bool
 	openCloseInPlace                               bool
+	mergeCode                                      string // MW: FieldUpdater.Merge copies; MWShare: writable fields replaced by reference
 }
 
 // ---- the witnesses of Props/C07.v on the real code ----
@@ -90,7 +91,7 @@ func probeParentUnion() bool {
 }
 
 func genC07(o *vcoq.Out, r *vcoq.Rand, tier string) error {
-	o.Header = "From SC Require Import Base.Prelude Alias.Owned Alias.Nested Alias.C07Judge."
+	o.Header = "From SC Require Import Base.Prelude Alias.Owned Alias.Nested Alias.Writable Alias.C07Judge."
 	o.CaseType = "c07case"
 	o.Judge = "judge"
 	o.Shard = 40
@@ -103,6 +104,9 @@ func genC07(o *vcoq.Out, r *vcoq.Rand, tier string) error {
 	}
 	cov, err := checkCoverage(sc)
 	if err != nil {
+		return err
+	}
+	if err := checkOptHooks(sc); err != nil {
 		return err
 	}
 	g.metaCode, g.seedClearCode, g.removeCode, g.unionCode = "IMeta", "SClear", "IRemove", "IUnion"
@@ -122,7 +126,11 @@ func genC07(o *vcoq.Out, r *vcoq.Rand, tier string) error {
 	if g.openCloseInPlace = probeOpenCloseGet(); g.openCloseInPlace {
 		asmCode = "RAsmV0"
 	}
-	o.Extra["coverage_extra"] = map[string]any{"variants": map[string]any{"metadata_merge": g.metaCode,
+	g.mergeCode = "MW"
+	if probeWritableShare() {
+		g.mergeCode = "MWShare"
+	}
+	o.Extra["coverage_extra"] = map[string]any{"variants": map[string]any{"metadata_merge": g.metaCode, "field_updater_merge": g.mergeCode,
 		"enterleave_pull_seed": g.seedClearCode, "parent_remove": g.removeCode, "parent_union": g.unionCode,
 		"openclose_get_positions": asmCode}}
 
@@ -194,7 +202,8 @@ func genC07(o *vcoq.Out, r *vcoq.Rand, tier string) error {
 	sort.Strings(never)
 	ce["monitor_targets"] = perTarget
 	ce["monitor_method_calls"] = g.methodCalls
-	ce["monitor_discovered"] = map[string]int{"source_files": sc.Files, "constructors": cov.Constructors, "types": cov.Types, "methods": cov.Methods}
+	ce["monitor_discovered"] = map[string]int{"source_files": sc.Files, "constructors": cov.Constructors, "types": cov.Types, "methods": cov.Methods,
+		"resource_option_hooks": len(sc.OptHooks)}
 	ce["monitor_methods_never_called"] = never
 	var br []string
 	for k := range g.bracketedMethods {
